@@ -1876,6 +1876,27 @@ write_module(ostream &out, ostream *out_h, InterrogateModuleDef *def) {
       << "\n";
 }
 /**
+ * Returns the remaps of the given set in an order that does not depend on
+ * where they happen to be allocated (the set is ordered by address): by order
+ * of creation, then by prototype.
+ */
+static std::vector<FunctionRemap *>
+ordered_remaps(const std::set<FunctionRemap *> &remaps) {
+  std::vector<FunctionRemap *> result(remaps.begin(), remaps.end());
+  std::sort(result.begin(), result.end(),
+            [](FunctionRemap *a, FunctionRemap *b) {
+    if (a->_wrapper_index != b->_wrapper_index) {
+      return a->_wrapper_index < b->_wrapper_index;
+    }
+    std::ostringstream proto_a, proto_b;
+    a->write_orig_prototype(proto_a, 0);
+    b->write_orig_prototype(proto_b, 0);
+    return proto_a.str() < proto_b.str();
+  });
+  return result;
+}
+
+/**
 
  */
 void InterfaceMakerPythonNative::
@@ -2140,7 +2161,7 @@ write_module_class(ostream &out, Object *obj) {
       // functions with different names mapped to the same slot.
       string fname;
       if (def._remaps.size() > 0) {
-        const FunctionRemap *first_remap = *def._remaps.begin();
+        const FunctionRemap *first_remap = ordered_remaps(def._remaps).front();
         fname = first_remap->_cppfunc->get_simple_name();
       }
 
@@ -2559,7 +2580,7 @@ write_module_class(ostream &out, Object *obj) {
           out << "static int " << def._wrapper_name << "(PyObject *self) {\n";
 
           // Find the remap.  There should be only one.
-          FunctionRemap *remap = *def._remaps.begin();
+          FunctionRemap *remap = ordered_remaps(def._remaps).front();
           const char *container = "";
 
           if (remap->_has_this) {
@@ -2603,7 +2624,7 @@ write_module_class(ostream &out, Object *obj) {
 
           // Iterate through the remaps to find the one that matches our
           // parameters.
-          for (FunctionRemap *remap : def._remaps) {
+          for (FunctionRemap *remap : ordered_remaps(def._remaps)) {
             if (remap->_const_method) {
               if ((remap->_flags & FunctionRemap::F_explicit_self) == 0) {
                 params_const.push_back("self");
@@ -2670,7 +2691,7 @@ write_module_class(ostream &out, Object *obj) {
 
           // Iterate through the remaps to find the one that matches our
           // parameters.
-          for (FunctionRemap *remap : def._remaps) {
+          for (FunctionRemap *remap : ordered_remaps(def._remaps)) {
             if (remap->_const_method) {
               if ((remap->_flags & FunctionRemap::F_explicit_self) == 0) {
                 params_const.push_back("self");
@@ -2800,7 +2821,7 @@ write_module_class(ostream &out, Object *obj) {
           out << "static int " << def._wrapper_name << "(PyObject *self, visitproc visit, void *arg) {\n";
 
           // Find the remap.  There should be only one.
-          FunctionRemap *remap = *def._remaps.begin();
+          FunctionRemap *remap = ordered_remaps(def._remaps).front();
 
           out << "  " << cClassName << " *local_this = nullptr;\n";
           out << "  DTOOL_Call_ExtractThisPointerForType(self, &Dtool_" << ClassName << ", (void **)&local_this);\n";
@@ -2870,7 +2891,7 @@ write_module_class(ostream &out, Object *obj) {
           out << "    return -1;\n";
           out << "  }\n\n";
 
-          FunctionRemap *remap = *def._remaps.begin();
+          FunctionRemap *remap = ordered_remaps(def._remaps).front();
           vector_string params;
           out << "  return (Py_hash_t) " << remap->call_function(out, 4, false, "local_this", params) << ";\n";
           out << "}\n\n";
@@ -2881,8 +2902,7 @@ write_module_class(ostream &out, Object *obj) {
         {
           string fname = "static PyObject *" + def._wrapper_name + "(PyTypeObject *cls, PyObject *args, PyObject *kwds)\n";
 
-          std::vector<FunctionRemap *> remaps;
-          remaps.insert(remaps.end(), def._remaps.begin(), def._remaps.end());
+          std::vector<FunctionRemap *> remaps = ordered_remaps(def._remaps);
           string expected_params;
           write_function_for_name(out, obj, remaps, fname, expected_params, true, AT_keyword_args, RF_pyobject | RF_err_null);
         }
@@ -2892,8 +2912,7 @@ write_module_class(ostream &out, Object *obj) {
         // Nothing special about the wrapper function: just write it normally.
         string fname = "static PyObject *" + def._wrapper_name + "(PyObject *self, PyObject *args, PyObject *kwds)\n";
 
-        std::vector<FunctionRemap *> remaps;
-        remaps.insert(remaps.end(), def._remaps.begin(), def._remaps.end());
+        std::vector<FunctionRemap *> remaps = ordered_remaps(def._remaps);
         string expected_params;
         write_function_for_name(out, obj, remaps, fname, expected_params, true, AT_keyword_args, RF_pyobject | RF_err_null);
         break;
